@@ -113,6 +113,7 @@ type smtCtx struct {
 	decls    []string // const / fun declarations in order
 	axioms   []string // global assertions (prelude-level: speclib axioms, iface constructors, ...)
 	tids     map[string]int
+	tidTypes map[string]types.Type
 	tidNames []string
 	ifaceCtor map[Sort]bool
 	strLits  map[string]string
@@ -212,6 +213,9 @@ func (c *smtCtx) sortOf(t types.Type) Sort {
 		}
 		return c.sortOf(u.Underlying())
 	case *types.TypeParam:
+		if _, _, ok := intTypeParam(u); ok {
+			return "Int"
+		}
 		return "TVal"
 	case *types.Basic:
 		switch {
@@ -321,7 +325,93 @@ func (c *smtCtx) freshConst(prefix string, s Sort) string {
 
 // tid returns the integer id of a dynamic type.
 func (c *smtCtx) tid(t types.Type) string {
-	return c.tidByName(TypeString(t))
+	name := TypeString(t)
+	if c.tidTypes == nil {
+		c.tidTypes = map[string]types.Type{}
+	}
+	if _, ok := c.tidTypes[name]; !ok {
+		c.tidTypes[name] = t
+	}
+	return c.tidByName(name)
+}
+
+var reflectKindOfBasic = map[types.BasicKind]int{types.Bool: 1, types.Int: 2, types.Int8: 3, types.Int16: 4, types.Int32: 5, types.Int64: 6,
+	types.Uint: 7, types.Uint8: 8, types.Uint16: 9, types.Uint32: 10, types.Uint64: 11, types.Uintptr: 12, types.Float32: 13, types.Float64: 14,
+	types.Complex64: 15, types.Complex128: 16, types.String: 24, types.UnsafePointer: 26}
+
+// reflectKind gives the reflect.Kind number of a Go type (0 if it depends on a type parameter).
+func reflectKind(t types.Type) int {
+	switch u := types.Unalias(t).Underlying().(type) {
+	case *types.Basic:
+		return reflectKindOfBasic[u.Kind()]
+	case *types.Array:
+		return 17
+	case *types.Chan:
+		return 18
+	case *types.Signature:
+		return 19
+	case *types.Interface:
+		if _, isTP := types.Unalias(t).(*types.TypeParam); isTP {
+			return 0
+		}
+		return 20
+	case *types.Map:
+		return 21
+	case *types.Pointer:
+		return 22
+	case *types.Slice:
+		return 23
+	case *types.Struct:
+		return 25
+	}
+	return 0
+}
+
+// tidFacts renders what reflect reports about the concrete dynamic types that occur in this VC.
+func (c *smtCtx) tidFacts() []string {
+	var out []string
+	done := map[string]bool{}
+	var names []string
+	for n := range c.tidTypes {
+		names = append(names, n)
+	}
+	sort.Strings(names)
+	var visit func(t types.Type)
+	visit = func(t types.Type) {
+		name := TypeString(t)
+		if done[name] {
+			return
+		}
+		done[name] = true
+		id := c.tid(t)
+		ty := app(q("f:typeOfDyn"), id)
+		if k := reflectKind(t); k != 0 {
+			out = append(out, app("=", app(q("f:kind"), ty), fmt.Sprint(k)))
+		}
+		var el types.Type
+		switch u := types.Unalias(t).Underlying().(type) {
+		case *types.Pointer:
+			el = u.Elem()
+		case *types.Slice:
+			el = u.Elem()
+		case *types.Array:
+			el = u.Elem()
+		case *types.Chan:
+			el = u.Elem()
+		case *types.Map:
+			el = u.Elem()
+		}
+		if el != nil {
+			if _, isTP := types.Unalias(el).(*types.TypeParam); !isTP {
+				visit(el)
+				out = append(out, app("=", app(q("f:elem"), ty), app(q("f:typeOfDyn"), c.tid(el))))
+			}
+		}
+	}
+	for _, n := range names {
+		visit(c.tidTypes[n])
+	}
+	return out
 }
 
 func (c *smtCtx) tidByName(name string) string {
@@ -407,7 +497,76 @@ func (c *smtCtx) zeroOfSort(s Sort, t types.Type) string {
 }
 
 // intRange returns lo, hi (as SMT literals) for an integer Go type, ok=false if not an integer.
+// intTypeParam reports whether every type in the type set of tp is an integer type, and whether all are
+// signed / all unsigned.
+func intTypeParam(tp *types.TypeParam) (allSigned, allUnsigned, ok bool) {
+	iface, isI := tp.Constraint().Underlying().(*types.Interface)
+	if !isI {
+		return false, false, false
+	}
+	n := 0
+	allSigned, allUnsigned = true, true
+	for i := 0; i < iface.NumEmbeddeds(); i++ {
+		et := types.Unalias(iface.EmbeddedType(i))
+		var terms []*types.Term
+		switch u := et.(type) {
+		case *types.Union:
+			for j := 0; j < u.Len(); j++ {
+				terms = append(terms, u.Term(j))
+			}
+		default:
+			if un, ok := et.Underlying().(*types.Interface); ok {
+				// named constraint interface (e.g. SignedInt): look inside
+				for k := 0; k < un.NumEmbeddeds(); k++ {
+					if uu, ok := types.Unalias(un.EmbeddedType(k)).(*types.Union); ok {
+						for j := 0; j < uu.Len(); j++ {
+							terms = append(terms, uu.Term(j))
+						}
+					} else {
+						terms = append(terms, types.NewTerm(false, un.EmbeddedType(k)))
+					}
+				}
+			} else {
+				terms = append(terms, types.NewTerm(false, et))
+			}
+		}
+		for _, tm := range terms {
+			_, sg, isInt := intBits(tm.Type())
+			if !isInt {
+				return false, false, false
+			}
+			n++
+			if sg {
+				allUnsigned = false
+			} else {
+				allSigned = false
+			}
+		}
+	}
+	if n == 0 {
+		return false, false, false
+	}
+	return allSigned, allUnsigned, true
+}
+
+// tpBitsName is the SMT constant holding the bit width of an integer type parameter.
+func tpBitsName(tp *types.TypeParam) string { return q("bits:" + tp.Obj().Name()) }
+
 func intRange(t types.Type) (lo, hi string, ok bool) {
+	if tp, isTP := types.Unalias(t).(*types.TypeParam); isTP {
+		sg, us, ok := intTypeParam(tp)
+		if !ok {
+			return "", "", false
+		}
+		b := tpBitsName(tp)
+		switch {
+		case sg:
+			return "(- (pow2 (- " + b + " 1)))", "(- (pow2 (- " + b + " 1)) 1)", true
+		case us:
+			return "0", "(- (pow2 " + b + ") 1)", true
+		}
+		return "(- 9223372036854775808)", "18446744073709551615", true
+	}
 	b, isB := types.Unalias(t).Underlying().(*types.Basic)
 	if !isB || b.Info()&types.IsInteger == 0 {
 		return "", "", false
@@ -463,6 +622,18 @@ var pow2 = map[int]string{7: "128", 8: "256", 15: "32768", 16: "65536", 31: "214
 
 // wrap maps a mathematical integer into the range of the given integer type (two's complement).
 func wrapInt(x string, t types.Type) string {
+	if tp, isTP := types.Unalias(t).(*types.TypeParam); isTP {
+		sg, us, ok := intTypeParam(tp)
+		if ok && (sg || us) {
+			lo, hi, _ := intRange(t)
+			b := tpBitsName(tp)
+			if sg {
+				return fmt.Sprintf("(let ((lv!w %s)) (ite (and (<= %s lv!w) (<= lv!w %s)) lv!w (- (mod (+ lv!w (pow2 (- %s 1))) (pow2 %s)) (pow2 (- %s 1)))))", x, lo, hi, b, b, b)
+			}
+			return fmt.Sprintf("(let ((lv!w %s)) (ite (and (<= 0 lv!w) (<= lv!w %s)) lv!w (mod lv!w (pow2 %s))))", x, hi, b)
+		}
+		return x
+	}
 	bits, signed, ok := intBits(t)
 	if !ok {
 		return x
@@ -508,6 +679,7 @@ func (c *smtCtx) prelude() string {
 (declare-fun slen (Str) Int)
 (assert (forall ((qv!s Str)) (! (>= (slen qv!s) 0) :pattern ((slen qv!s)))))
 (define-fun b2i ((b Bool)) Int (ite b 1 0))
+(define-fun pow2 ((n Int)) Int (ite (= n 7) 128 (ite (= n 8) 256 (ite (= n 15) 32768 (ite (= n 16) 65536 (ite (= n 31) 2147483648 (ite (= n 32) 4294967296 (ite (= n 63) 9223372036854775808 (ite (= n 64) 18446744073709551616 0)))))))))
 `)
 	for _, si := range c.structL {
 		var fs []string
